@@ -47,7 +47,7 @@ theorem rebuild_nth_e_yearly (hn : NthERule r) (hf : r.freq = 0) (hbm : truthy r
     split
     · rename_i h; rw [h] at this; simp [truthy] at this
     · rfl
-  obtain ⟨emask, e1, e2, e3⟩ := eastermaskOf_spec hn el hel hoff y hy1 hy2
+  obtain ⟨emask, e1, e2, e3⟩ := eastermaskOf_spec hn.byeaster el hel hoff y hy1 hy2
   obtain ⟨nmask, n1, n2, n3⟩ := nwdaymask_yearly (baseInfo_facts r y (by omega) (by omega)) hf hbm nwl hne hnw hok m
   unfold rebuild
   rw [if_neg (by omega), hw]
